@@ -241,10 +241,8 @@ def manReset (r : Option ResetValue) : M (Option ResetValue) :=
   | some (.array a) => if a.all (· < 256) then pure r else throw (frontErr "front_bad_value")
   | none => pure none
 
-/-- The manifest front end parses the four defaults `default_register_access`,
-    `default_field_access`, `default_buffer_access`, `default_bit_order` into the global config
-    but takes `Default::default()` (RW / LSB0) for objects that do not set their own. -/
-def manField (f : AField) : M Field := do
+/-- Fields start from `default_field_access` and are overwritten by their own keys. -/
+def manField (g : GlobalConfig) (f : AField) : M Field := do
   let start ← checkU32 f.start
   let stop ← match f.stop with
     | none => pure start
@@ -254,7 +252,7 @@ def manField (f : AField) : M Field := do
     | .enum e t => .enum { cfg := none, description := e.description.getD "", name := e.name,
                            variants := e.variants.map lowerVariant } t
   pure { cfg := f.cfg, description := f.description.getD "", name := f.name,
-         access := f.access.getD .rw, base := f.base, conv := conv, start := start, stop := stop }
+         access := f.access.getD g.defaultFieldAccess, base := f.base, conv := conv, start := start, stop := stop }
 
 def manOverride (target : String) (ov : AOverride) : M ObjectOverride := do
   match ov.kind with
@@ -276,37 +274,38 @@ def manOverride (target : String) (ov : AOverride) : M ObjectOverride := do
                             allowAddressOverlap := ov.allowAddressOverlap.getD false, repeat_ := rep })
 
 mutual
-def manObj : AObj → M Object
+def manObj (g : GlobalConfig) : AObj → M Object
   | .block c off rep os => do
     let off ← off.mapM checkAddr
     let rep ← checkRepeat rep
-    let os' ← manObjs os
+    let os' ← manObjs g os
     let h : BlockHead :=
       { cfg := c.cfg, description := c.description.getD "", name := c.name,
         addressOffset := off.getD 0, repeat_ := rep }
     pure (.block h os')
   | .register c access bo bito address size reset rep abo aao fields => do
-    let fs ← fields.mapM manField
+    let fs ← fields.mapM (manField g)
     let address ← checkAddr address
     let size ← checkU32 size
     let reset ← manReset reset
     let rep ← checkRepeat rep
     let r : Register :=
       { cfg := c.cfg, description := c.description.getD "", name := c.name,
-        access := access.getD .rw, byteOrder := bo, bitOrder := bito.getD .lsb0,
+        access := access.getD g.defaultRegisterAccess, byteOrder := bo,
+        bitOrder := bito.getD g.defaultBitOrder,
         allowBitOverlap := abo.getD false, allowAddressOverlap := aao.getD false,
         address := address, sizeBits := size, reset := reset, repeat_ := rep, fields := fs }
     pure (.register r)
   | .command c _ address bo bito si so rep abo aao fin fout => do
-    let i ← (fin.getD []).mapM manField
-    let o ← (fout.getD []).mapM manField
+    let i ← (fin.getD []).mapM (manField g)
+    let o ← (fout.getD []).mapM (manField g)
     let address ← checkAddr address
     let si ← checkU32 (si.getD 0)
     let so ← checkU32 (so.getD 0)
     let rep ← checkRepeat rep
     let x : Command :=
       { cfg := c.cfg, description := c.description.getD "", name := c.name,
-        address := address, byteOrder := bo, bitOrder := bito.getD .lsb0,
+        address := address, byteOrder := bo, bitOrder := bito.getD g.defaultBitOrder,
         allowBitOverlap := abo.getD false, allowAddressOverlap := aao.getD false,
         sizeBitsIn := si, sizeBitsOut := so, repeat_ := rep, inFields := i, outFields := o }
     pure (.command x)
@@ -314,24 +313,25 @@ def manObj : AObj → M Object
     let address ← checkAddr address
     let b : Buffer :=
       { cfg := c.cfg, description := c.description.getD "", name := c.name,
-        access := access.getD .rw, address := address }
+        access := access.getD g.defaultBufferAccess, address := address }
     pure (.buffer b)
   | .ref c target ov => do
     let ov' ← manOverride target ov
     let r : RefObject :=
       { cfg := c.cfg, description := c.description.getD "", name := c.name, override := ov' }
     pure (.ref r)
-def manObjs : List AObj → M (List Object)
+def manObjs (g : GlobalConfig) : List AObj → M (List Object)
   | [] => pure []
   | o :: os => do
-    let o' ← manObj o
-    let os' ← manObjs os
+    let o' ← manObj g o
+    let os' ← manObjs g os
     pure (o' :: os')
 end
 
 def lowerManifest (d : ADef) : M Device := do
-  let os ← manObjs d.objects
-  pure { config := lowerConfig d.config, objects := os }
+  let g := lowerConfig d.config
+  let os ← manObjs g d.objects
+  pure { config := g, objects := os }
 
 def lowerFront (s : Syntax) (d : ADef) : M Device :=
   match s with
